@@ -1329,7 +1329,9 @@ func (s *Store) Services(ws memdb.WatchSet, entMeta *acl.EnterpriseMeta, peerNam
 		if err != nil {
 			return 0, nil, fmt.Errorf("failed querying and parsing services :%s", err)
 		}
-		return idx, parsedResult, nil
+		// The joined result carries node fields (address, meta, tagged
+		// addresses), so a change to a node is a change to this result.
+		return lib.MaxUint64(idx, catalogNodesMaxIndex(tx, entMeta, peerName)), parsedResult, nil
 	}
 	return idx, result, nil
 }
